@@ -287,6 +287,34 @@ def havoc_frame(it, c, bound):
             root.fields[parts[1]] = fshape.fresh(it.ctx, f'h_{pname}')
 
 
+def separation_ok(root):
+    """The shapes promise that the mutable parts of an object are pairwise distinct objects (the
+    object graph below `root` is a tree).  Identities are concrete in the evaluator, so this is a
+    syntactic check: False iff two access paths reach the same mutable container."""
+    seen = set()
+    stack = [root]
+    while stack:
+        v = stack.pop()
+        if isinstance(v, SOpt):
+            stack.append(v.inner)
+            continue
+        if isinstance(v, tuple):
+            stack.extend(v)
+            continue
+        if not isinstance(v, Mut) or (isinstance(v, SObj) and v.frozen):
+            continue
+        if v.oid in seen:
+            return False
+        seen.add(v.oid)
+        if isinstance(v, SObj):
+            stack.extend(v.fields.values())
+        elif isinstance(v, SDict):
+            stack.extend(v.d.values())
+        elif isinstance(v, SList):
+            stack.extend(v.items)
+    return True
+
+
 def frame_condition(it, c, bound, old):
     """Everything reachable from the parameters that is NOT in `modifies` is unchanged."""
     conj = []
